@@ -544,6 +544,10 @@ def pyvalue_cases(tier):
             for style in ("pos1", "kw1", "pos2", "kw2"):
                 for where in ("arg", "ret"):
                     yield ("value", i, ver, style, where)
+    for cp in list(range(0x20, 0x7f)) + [0xe9, 0x130, 0x2028, 0x3042, 0xff0e, 0x1f600, 0x0, 0xa, 0xd800]:
+        for ver in (VERSIONS[0], VERSIONS[3]):
+            for pos in ("mid", "first", "last"):
+                yield ("name", cp, ver, pos, "plain")
     for i, (name, fn, argl) in enumerate(CALLABLES):
         for j in range(len(argl or ())):
             for ver in VERSIONS:
@@ -569,6 +573,25 @@ def check_pyvalue(case):
         except Exception as ex:
             exc = ex
         return judge_call(out, "python-values", reg, "f", args, kwargs, reg.ret, got, exc)
+    if what == "name":
+        # one registered name per code point: the callable registered under exactly that name is the one invoked
+        c = chr(i)
+        name = {"mid": "m" + c + "x", "first": c + "mx", "last": "mx" + c}[x]
+        if name.startswith("_") or "." in name:
+            out.nontrivial = False  # private-looking names and dotted paths have their own rules (NAMES covers them)
+            return out
+        d2 = SimpleJSONRPCDispatcher(config=Config(version=sv))
+        calls = []
+        d2.register_function(lambda *a: calls.append(a) or "R", name)
+        d2.register_function(lambda *a: calls.append(("WRONG",) + a) or "W", "mx")
+        proxy = jsonrpclib.ServerProxy("http://h/", transport=LoopbackTransport(d2), version=cv)
+        try:
+            got = getattr(proxy, name)(1)
+        except Exception as ex:
+            return out.bad("C01/python-names/call-raises-%s" % type(ex).__name__, "method name %r (U+%04X) raised %r" % (name, i, ex))
+        if got != "R" or calls != [(1,)]:
+            out.bad("C01/python-names/wrong-callable-or-result", "method name %r (U+%04X): result %r, invocations %r" % (name, i, got, calls))
+        return out
     name, fn, argl = CALLABLES[i]
     args = argl[x]
     want = gen.normalise(fn(*args))
@@ -608,7 +631,7 @@ META = {
     "multi-byte, >2 KiB of blanks); python-values: 23 values of non-exact Python types (OrderedDict, Counter, defaultdict, dict/list/str/int subclasses, tuples, "
     "namedtuples, blank-rich long strings) as argument and as return value x styles x versions, and 23 registered callables that are not plain functions "
     "(builtins, bound builtin methods, operator/functools objects, callable instances, bound/static/class methods, lambdas) x argument lists x {call, batch, "
-    "notification}; every case non-trivial",
+    "notification}, and one registered method name per printable ASCII character and 9 other code points (first, middle, last position); every case non-trivial",
     "bounds": {"quick": {"value_depth": 1, "batch_len": 3}, "thorough": {"value_depth": 2, "batch_len": 3}},
     "assumptions": ["fault-free network (property domain)", "payloads contain no '__jsonclass__' keys when translation is on", "stdlib json backend"],
 }
